@@ -152,6 +152,8 @@ func runC06(c *Ctx) {
 	c.nilArguments()
 	c.rawBytes("C06")
 	c.lateDerived("C06")
+	c.nestedClear()
+	c.sigilKeys()
 	// queries with Go values that no stored element can be identical to: a value of another numeric Go type is not
 	// the int / float64 the container holds (Contains false, KeyOf panics), whatever its numeric value
 	m.Case("foreign-queries")
@@ -288,6 +290,7 @@ func runC08(c *Ctx) {
 	c.St.Rule = "container trees cloned, then a random mutation program applied inside the clone or inside the original (top level and nested, methods and tree-form paths), every live container snapshotted after every step; non-trivial = the tree has a nested container; distinct by tree and program"
 	opts := &TreeOpts{MaxDepth: 4, MaxWidth: 4, Keys: r.SimpleKey}
 	c.deepChains()
+	c.deepCloneBottom()
 	c.entryWays()
 	c.omoList("C08")
 	c.omoObj("C08")
@@ -1624,6 +1627,9 @@ func runC19(c *Ctx) {
 	c.overriding("C19")
 	c.selfStore("C19")
 	c.longLists("C19")
+	c.nestedClear()
+	c.derivedShrinkLarge()
+	c.indexSpellings("C19")
 	for lvl := 1; lvl <= 2; lvl++ {
 		for rep := 0; rep < c.N(3, 30); rep++ {
 			m.Case(fmt.Sprintf("fluent-level-%d", lvl))
